@@ -297,6 +297,43 @@ def case_max(ctx, family, k, n, rseed):
             ctx.judged(("max", family, k, n, m, nplanted), nontrivial=True, sample={"call": label})
 
 
+def case_size_sweep(ctx, sizes, rseed):
+    """Every n in a range with a few k and about n clauses, with and without a planted assignment (a fast path of the
+    samplers may begin at any unremarkable size)."""
+    import cnfgen.families.randomformulas as rf
+    import cnfgen.families.randomkxor as rx
+    r = ctx.rng("c13sweep", rseed, tuple(sizes[:2]))
+    for n in sizes:
+        for k in sorted({min(n, 2), min(n, 3), min(n, 1 + n % 5)}):
+            if k < 1:
+                continue
+            import math
+            m = min(n + n % 7, math.comb(n, k))
+            planted = planted_sets(n, r, n % 2)
+            seed = r.randint(0, 10 ** 6)
+            label = "RandomKCNF(k=%d,n=%d,m=%d,planted x%d,seed=%d)" % (k, n, m, len(planted), seed)
+            st, F = ctx.call(rf.RandomKCNF, k, n, m, seed=seed, planted_assignments=[list(a) for a in planted])
+            ctx.count("size_sweep_calls")
+            if st == "exc":
+                ctx.violation("randkcnf:%s" % ("refuses-feasible" if isinstance(F, ValueError) else "raises:" + type(F).__name__), "%s raised %r" % (label, F))
+            else:
+                check_kcnf(ctx, F, k, n, m, planted, label)
+            ctx.judged(("sweep", "kcnf", k, n, m, len(planted)), nontrivial=m > 0, sample={"call": label})
+            if k <= 4:
+                label = "RandomKXOR(k=%d,n=%d,m=%d,planted x%d,seed=%d)" % (k, n, m, len(planted), seed)
+                st, F = ctx.call(rx.RandomKXOR, k, n, m, seed=seed, planted_assignments=[list(a) for a in planted])
+                ctx.count("size_sweep_calls")
+                if st == "exc":
+                    ctx.violation("randkxor:%s" % ("refuses-feasible" if isinstance(F, ValueError) else "raises:" + type(F).__name__), "%s raised %r" % (label, F))
+                else:
+                    sets = [set(a) for a in planted]
+                    if len(F) != m * 2 ** (k - 1) or F.number_of_variables() != n:
+                        ctx.violation("randkxor:shape", "%s: %d clauses / %d variables" % (label, len(F), F.number_of_variables()))
+                    elif any(not any(l in a for l in c) for a in sets for c in F):
+                        ctx.violation("randkxor:planted-falsified", "%s: a clause is falsified by the planted assignment" % label)
+                ctx.judged(("sweep", "kxor", k, n, m, len(planted)), nontrivial=m > 0, sample={"call": label})
+
+
 def case_astronomical(ctx, rseed):
     """Requests for a handful of clauses / parities out of a universe far beyond any machine number (C(n,k)*2^k above
     1e308, n up to 2^62): they are satisfiable requests like any other."""
@@ -329,6 +366,9 @@ def case_astronomical(ctx, rseed):
 def workload(tier, seed):
     import math
     yield "astronomical", {"rseed": seed}
+    sweep = list(range(1 + seed % 4, 330, 4)) if tier == "quick" else list(range(1, 700))
+    for i in range(0, len(sweep), 20):
+        yield "size_sweep", {"sizes": sweep[i:i + 20], "rseed": seed}
     for family in ("kcnf", "kxor"):
         # clauses produced at the maximum; the k-CNF ones are inspected one by one, the parities only counted
         limit = {"kcnf": 12000, "kxor": 450000} if tier == "quick" else {"kcnf": 150000, "kxor": 3000000}
